@@ -7,6 +7,7 @@ require (
 	github.com/mastercactapus/proxyprotocol v0.0.4
 	github.com/mholt/caddy-l4 v0.0.0
 	github.com/miekg/dns v1.1.62
+	github.com/things-go/go-socks5 v0.0.5
 	go.uber.org/zap v1.27.0
 )
 
@@ -84,7 +85,6 @@ require (
 	github.com/spf13/pflag v1.0.5 // indirect
 	github.com/stoewer/go-strcase v1.3.0 // indirect
 	github.com/tailscale/tscert v0.0.0-20240517230440-bbccfbf48933 // indirect
-	github.com/things-go/go-socks5 v0.0.5 // indirect
 	github.com/urfave/cli v1.22.14 // indirect
 	github.com/zeebo/blake3 v0.2.3 // indirect
 	go.etcd.io/bbolt v1.3.9 // indirect
